@@ -226,6 +226,54 @@ def generate(rng, tier):
             yield emit(rng, any_form(rng), a, b)
 
 
+    # ---- 12. num-modular's dividers called directly (the mirror in Model/Int/NumModular.lean is tied to
+    #          the crate here): reciprocals, 1by1/2by1/2by2/3by2/4by2 at W = 8, 16, 32, 64 on boundary and
+    #          random normalized divisors and dividends with a_hi < d; exhaustive sweeps of the 8-bit instance
+    for c in nm_cases(rng, quick):
+        yield c
+
+
+def nm_cases(rng, quick):
+    def norm_word(w):
+        Bw = 1 << w
+        return rng.choice([Bw >> 1, (Bw >> 1) + 1, Bw - 1, Bw - 2, (Bw >> 1) | 1, 3 << (w - 2), (3 << (w - 2)) + 1,
+                           rng.getrandbits(w) | (Bw >> 1), rng.getrandbits(w) | (Bw >> 1)])
+    def norm_dword(w):
+        Bw = 1 << w
+        return rng.choice([Bw * Bw >> 1, (Bw * Bw >> 1) + 1, Bw * Bw - 1, Bw * Bw - 2, (Bw >> 1) * Bw + Bw - 1,
+                           (Bw - 1) * Bw, (Bw - 1) * Bw + 1, Bw * Bw - Bw, Bw * Bw - Bw - 1, Bw * Bw - Bw + 1,
+                           (3 << (2 * w - 2)) + 16, rng.getrandbits(2 * w) | (Bw * Bw >> 1),
+                           rng.getrandbits(2 * w) | (Bw * Bw >> 1), rng.getrandbits(2 * w) | (Bw * Bw >> 1)])
+    def below(d):
+        return rng.choice([0, 1, d - 1, d - 2 if d > 1 else 0, d >> 1, rng.randrange(0, d), rng.randrange(0, d)])
+    def anyw(bits):
+        return rng.choice([0, 1, (1 << bits) - 1, (1 << bits) - 2, 1 << (bits - 1), rng.getrandbits(bits), rng.getrandbits(bits)])
+    n = 120 if quick else 6000
+    for w in (8, 16, 32, 64):
+        Bw = 1 << w
+        for i in range(n):
+            d = norm_word(w)
+            yield Case("nm.inv1", [dec(w), hx(d)])
+            yield Case("nm.div1by1", [dec(w), hx(d), hx(anyw(w))])
+            yield Case("nm.div2by1", [dec(w), hx(d), hx(below(d) * Bw + anyw(w))])
+            D = norm_dword(w)
+            yield Case("nm.inv2", [dec(w), hx(D)])
+            yield Case("nm.div2by2", [dec(w), hx(D), hx(anyw(2 * w))])
+            yield Case("nm.div3by2", [dec(w), hx(D), hx(anyw(w)), hx(below(D))])
+            yield Case("nm.div4by2", [dec(w), hx(D), hx(anyw(2 * w)), hx(below(D))])
+    # 8-bit instance: exhaustive
+    ds = range(128, 256) if not quick else [128, 129, 170, 254, 255]
+    for d in ds:
+        yield Case("nm.sweep2by1", [dec(8), hx(d)])
+    step = 1024
+    los = range(0x8000, 0x10000, step) if not quick else [0x8000, 0xfc00]
+    for lo in los:
+        yield Case("nm.sweepinv2", [dec(8), hx(lo), hx(step)])
+    for i in range(40 if quick else 20000):
+        D = norm_dword(8)
+        yield Case("nm.sweep3by2", [dec(8), hx(D), hx(below(D))])
+
+
 USES_GEN = True
 GEN_PROPS = ["Dashu.Props.GenInt"]
 GEN_AUDIT = ["Dashu.Audit.GenInt"]
@@ -238,7 +286,9 @@ _C02 = ["truncating_conventions", "euclidean_conventions",
         "ibig_div_exact", "ibig_rem_exact", "ibig_div_rem_exact", "ibig_div_euclid_exact",
         "ibig_rem_euclid_exact", "ibig_div_rem_euclid_exact", "ubig_ibig_rem_exact",
         "ubig_ibig_div_rem_exact", "ibig_is_multiple_of_exact",
-        "const_divisor_new_value", "const_divisor_eq_plain", "const_divisor_ibig_exact"]
+        "const_divisor_new_value", "const_divisor_eq_plain", "const_divisor_ibig_exact",
+        "nm_invert_word_exact", "nm_div_rem_2by1_exact", "nm_invert_double_word_exact",
+        "nm_div_rem_3by2_exact", "nm_div_rem_4by2_exact", "nm_contracts_discharged"]
 _GEN = ["ibig_div_exact", "ibig_rem_exact", "ibig_divrem_exact", "ibig_div_euclid_exact",
         "ibig_rem_euclid_exact", "ibig_divrem_euclid_exact", "ubig_ibig_rem_exact", "ubig_ibig_divrem_exact"]
 THEOREMS = ["Dashu.Props.C02." + t for t in _C02] + ["Dashu.Props.GenInt." + t for t in _GEN]
@@ -252,17 +302,16 @@ REFINED = [
     "cmp::cmp_same_len, mul::sub_mul_word_same_len_in_place (carry_plus_max)",
     "div::simple::div_rem_highest_word (Knuth D: estimate never too small / too large by <= 1, borrow>lhs_top correction, both debug_asserts)",
     "div::simple::div_rem_in_place (quotient carry, loop)",
-    "div::divide_conquer::{div_rem_in_place, div_rem_in_place_same_len, div_rem_in_place_small_quotient} (Burnikel-Ziegler: block loop, 2m/m estimate, add_signed_mul update, conditional sub_same_len, `while rem_overflow < 0` loop terminates within 4 rounds, all asserts) relative to the add_signed_mul contract",
+    "div::divide_conquer::{div_rem_in_place, div_rem_in_place_same_len, div_rem_in_place_small_quotient} (Burnikel-Ziegler: block loop, 2m/m estimate, add_signed_mul update, conditional sub_same_len, `while rem_overflow < 0` loop terminates within 4 rounds, all asserts) with C01's mirrored and proved add_signed_mul (theorems through it need W >= 4)",
     "div::normalize, div::div_rem_unshifted_in_place (q_top), div::div_rem_in_place (algorithm choice)",
     "div_ops::repr::{div_rem_in_lhs, div_rem_large, div_large, rem_large, div_rem_dword, div_rem_large_dword, rem_large_dword}",
     "DivRem / Div / Rem for TypedRepr (all four size-class arms, zero divisor -> panic_divide_by_0)",
     "TypedRepr::add_one; impl_ibig_div, impl_ibig_rem, impl_ibig_divrem, impl_ibig_div_euclid, impl_ibig_rem_euclid, impl_ibig_divrem_euclid, impl_ubig_ibig_rem, impl_ubig_ibig_divrem (model glue = glue regenerated from /repo = Int.tdiv/tmod resp. ediv/emod)",
     "UBig::is_multiple_of, IBig::is_multiple_of, is_multiple_of_const (non-zero double-word divisor)",
+    "num-modular 0.6 Normalized2by1Divisor::{invert_word, div_rem_1by1, div_rem_2by1} and Normalized3by2Divisor::{invert_double_word, div_rem_2by2, div_rem_3by2, div_rem_4by2} (Moeller-Granlund Algorithms 4, 5, 6 with every wrapping operation) = floor division under the crate's preconditions; the division model's contract parameters are discharged (nm_contracts_discharged)",
     "ConstDivisor::new (single/double/large, zero -> divide-by-zero panic), value(); div_rem_small_single, div_rem_small_double, ConstSingleDivisor::{rem_dword, rem_large}, ConstDoubleDivisor::{rem_dword, rem_large}; Div / Rem / DivRem<&ConstDivisor> for TypedRepr, IBig forms",
 ]
 FRONTIER = [
-    "mul::add_signed_mul as called by Burnikel-Ziegler (`subMulContract`): contract parameter = exact c - a*b with signed carry; the multiplication kernels are C01's subject",
-    "num-modular Normalized2by1Divisor / Normalized3by2Divisor (div_rem_1by1/2by1/2by2/3by2/4by2, `new`): contract parameters = exact floor division guarded by the crate's own preconditions (every precondition is proved at each call site)",
 ]
 RULE = ("corpus, then: every form (u/i/ui/iu x div,rem,divrem,diveuclid,remeuclid,divremeuclid,ismultiple; ConstDivisor cdiv,crem,cdivrem,cdivrem2 "
         "for UBig and IBig; is_multiple_of_const; ConstDivisor::value/from_word/from_dword) x {zero divisor with dividends of each representation class; "
@@ -276,24 +325,23 @@ RULE = ("corpus, then: every form (u/i/ui/iu x div,rem,divrem,diveuclid,remeucli
         "quotient carry 390 (simple) + 48 (B-Z); shift carry > 0 611; normalisation shift = 0 922 / > 0 1970; B-Z 234 cases; power-of-two word divisors 143, double-word 225 "
         "(19 with 2^W exactly); odd leftover word 482; lhs shorter than divisor 157; zero divisor 140; ConstDivisor single/double/large x inline/heap all > 40 each. "
         "Non-trivial := some operand >= 3 words; distinct := distinct (op,args) lines.")
-EXPLANATION = ("Theorems (all W >= 1, all lengths): the word-divisor and double-word-divisor loops, the power-of-two shortcuts, Knuth D (estimate, correction, loop, quotient carry), "
-               "Burnikel-Ziegler (relative to the add_signed_mul contract), normalize / unshifted division / remainder shift-back, the four size-class arms of `/`, `%`, div_rem on magnitudes, zero divisor = documented panic in every form, "
+EXPLANATION = ("Theorems (all W >= 1 for the word/double-word/Knuth-D kernels, W >= 4 for everything that can reach Burnikel-Ziegler's multiplication; all lengths): the word-divisor and double-word-divisor loops, the power-of-two shortcuts, Knuth D (estimate, correction, loop, quotient carry), "
+               "Burnikel-Ziegler (calling C01's proved multiplication), normalize / unshifted division / remainder shift-back, the four size-class arms of `/`, `%`, div_rem on magnitudes, zero divisor = documented panic in every form, "
                "is_multiple_of, ConstDivisor (new/value and Div/Rem/DivRem for UBig and IBig) = plain division. The IBig and mixed sign tables executed by the model are proved equal "
-               "to the glue regenerated from /repo's macros (Tie A), whose meaning (Int.tdiv/tmod, Int.ediv/emod) is proved in Props/GenInt. Contract parameters: num-modular's dividers "
-               "and mul::add_signed_mul (used by Burnikel-Ziegler).")
-ASSUMPTIONS = ["num-modular 0.6 Normalized2by1Divisor::div_rem_2by1 / div_rem_1by1 and Normalized3by2Divisor::div_rem_2by2 / 3by2 / 4by2 return exact floor quotient and remainder when their documented precondition (a_hi < divisor) holds; `new` requires the top bit set",
+               "to the glue regenerated from /repo's macros (Tie A), whose meaning (Int.tdiv/tmod, Int.ediv/emod) is proved in Props/GenInt. num-modular's dividers (Moeller-Granlund) are mirrored and proved equal to floor division, so no contract parameter remains besides std bit intrinsics.")
+ASSUMPTIONS = [
                "u64::leading_zeros, trailing_zeros, is_power_of_two, <<, >>, &, | at their documented meaning",
-               "mul::add_signed_mul(c, Negative, a, b) (called by Burnikel-Ziegler) leaves c - a*b modulo B^len(c) and returns the signed carry (C01's kernels)"]
-TRUSTED = ["num-modular division primitives at their contract (exercised through every case of the correspondence)"]
+               ]
+TRUSTED = ["the hand-written mirror of num-modular's dividers is tied to the crate by direct calls (nm.* ops at W = 8/16/32/64, exhaustive sweeps of the 8-bit instance in the thorough tier)"]
 LEVEL_TEXT = ("Machine-checked Lean 4 theorems, for every word size W >= 1 and every operand length, that the mirrored division code of dashu-int (single- and double-word divisor "
               "loops with their power-of-two shortcuts, Knuth algorithm D with normalisation, top-word correction and quotient carry, the size-class dispatch, the zero-divisor panic "
               "in every form, the truncating and Euclidean sign conventions, is_multiple_of, and ConstDivisor in all three classes) computes exactly a = q*b + r with the documented "
               "conventions; the hand-written model is tied to /repo on every run by differential execution of model and real code over structured operands around every branch condition, "
               "all call forms, and the sign tables additionally by regeneration from the macro source. The divide-and-conquer algorithm (Burnikel-Ziegler, divisor and quotient both > 32 words) "
-              "is refined relative to the contract of the multiplication it calls.")
-LEVEL_NOTE = ("Trusted: Lean kernel; axioms propext/Classical.choice/Quot.sound; num-modular's division primitives and std bit intrinsics at their documented contracts (modelled as exact "
-              "floor division guarded by the crate's own preconditions, every precondition proved at each call site); the correspondence harness and generators (sampling) for the tie "
-              "model<->code; mul::add_signed_mul inside Burnikel-Ziegler is a contract parameter (multiplication is C01). Finding recorded and fixed in /repo (commit 2941615): ConstDivisor `%` with a "
+              "is refined too; the multiplication it calls is C01's mirrored and proved kernel (those theorems hold for W >= 4).")
+LEVEL_NOTE = ("Trusted: Lean kernel; axioms propext/Classical.choice/Quot.sound; std bit intrinsics (leading_zeros, is_power_of_two, shifts) at their documented meaning; num-modular's dividers are "
+              "mirrored (Algorithms 4/5/6) and proved, the mirror being tied to the crate by direct differential calls incl. exhaustive 8-bit sweeps; the correspondence harness and generators (sampling) for the tie "
+              "model<->code. Finding recorded and fixed in /repo (commit 2941615): ConstDivisor `%` with a "
               "normalised one-word divisor and an inline dividend whose high word is >= the divisor.")
 TECHNIQUE = "Lean 4 refinement proofs (induction over word lists, all W) + differential correspondence model vs real code + sign tables regenerated from source"
 READY = True
